@@ -40,6 +40,11 @@ func c17Prog(r *Rng, idx int) *Prog {
 					o.SuggFn = []string{"sugd"}
 				}
 			}
+			if o.Kind == KMap && r.Chance(1, 2) {
+				o.Suggested = []string{"os=", "arch=", "debug"} // key= suggestions of a map option
+			}
+			if false {
+			}
 		}
 		if r.Chance(1, 2) {
 			c.ArgComp = []string{"zeta", "alpha", "alpine", "co-static", "c"}
@@ -111,7 +116,7 @@ func c17LastWord(r *Rng, n *Node, pay *Payloads) (string, string) {
 		if len(withVals) > 0 {
 			o := withVals[r.Intn(len(withVals))]
 			k := r.Pick(o.Keys())
-			part := r.Pick([]string{"", "s", "su", "sug", "v", "val", "d", "dyn", "zz", "suga"})
+			part := r.Pick([]string{"", "s", "su", "sug", "v", "val", "d", "dyn", "zz", "suga", "o", "a", "os", "de"})
 			return "--" + k + "=" + part, "value"
 		}
 		// option without suggestions
@@ -199,7 +204,13 @@ func c17Expected(n *Node, last string, zsh bool) *c17Exp {
 	}
 	e.list = append(e.list, n.Cmd.ArgCompFn...)
 	if n.IsHelp {
+		// the built-in help command takes a topic: its static suggestions are the commands of the level it belongs to
 		e.list = nil
+		for name, c := range n.Parent.Children {
+			if !c.IsHelp && strings.HasPrefix(name, last) {
+				e.list = append(e.list, name)
+			}
+		}
 	}
 	sort.Strings(e.list)
 	return e
@@ -249,6 +260,13 @@ func init() {
 				exp = Fold(t, s)
 			}
 			node := t.Nodes[exp.Node]
+			if h, ok := node.Children[p.Help]; ok && p.Help != "" && r.Chance(1, 8) {
+				// `... help <TAB>`: topic completion
+				s.Items = append(s.Items, &Item{K: ICmd, Tok: p.Help, Tokens: []string{p.Help}, Level: node.Path})
+				s.Assemble()
+				node = h
+				exp.Node = h.Path
+			}
 			last, lastClass := c17LastWord(r, node, NewPayloads(r))
 			words := append(append([]string{"prog"}, s.Argv...), last)
 			sep := " "
